@@ -172,8 +172,8 @@ CONDITIONS = [
               'entry / set one of 3 values / retag str or int; second '
               'mutation = any single-point mutation of the quick palettes at '
               'any other site'},
-    {'fn': 'mutants', 'slices': pipeline.ALL_SLICES_A,
-     'quick_slices': pipeline.QUICK_SLICES_A, 'quick': 110, 'thorough': 300,
+    {'fn': 'mutants', 'slices': pipeline.C08_SLICES,
+     'quick_slices': pipeline.C08_QUICK_SLICES, 'quick': 110, 'thorough': 300,
      'bound': pipeline.MUTANT_BOUND},
     {'fn': 'mutants_reach',
      'slices': [pipeline.slice_for('plain', 0, 2)],
